@@ -14,21 +14,54 @@ CVC5 = '/usr/bin/cvc5'
 def obligation_smt2(axioms, ob, terms=None):
     """SMT-LIB text of  axioms and pc and not goal ; `terms` (name -> z3 term) are bound to
     fresh constants in!<name> so that a counter-model can be read back from any solver."""
-    s = z3.Solver()
-    for a in axioms:
-        s.add(a)
-    for c in ob.pc:
-        s.add(c)
-    s.add(z3.Not(ob.goal))
+    es = list(axioms) + list(ob.pc) + [z3.Not(ob.goal)]
     for name, t in (terms or {}).items():
-        s.add(z3.Const('in!' + name, t.sort()) == t)
-    return s.to_smt2()
+        es.append(z3.Const('in!' + name, t.sort()) == t)
+    return exprs_to_smt2(es)
+
+
+def has_quantifier(e):
+    seen = set()
+    todo = [e]
+    while todo:
+        x = todo.pop()
+        if x.get_id() in seen:
+            continue
+        seen.add(x.get_id())
+        if z3.is_quantifier(x):
+            return True
+        todo.extend(x.children())
+    return False
+
+
+def weakened_smt2(axioms, ob, terms=None):
+    """refutation search only: quantified hypotheses dropped. A model of this query proves
+    nothing by itself; it is a candidate input that is believed only after it has been
+    replayed on the real code."""
+    es = [a for a in list(axioms) + list(ob.pc) if not has_quantifier(a)]
+    es.append(z3.Not(ob.goal))
+    for name, t in (terms or {}).items():
+        es.append(z3.Const('in!' + name, t.sort()) == t)
+    return exprs_to_smt2(es)
+
+
+def exprs_to_smt2(es):
+    """print the formulas as they are (Solver.to_smt2 would print the solver's pre-processed
+    assertions, where seq.nth has become the internal seq.nth_i/seq.nth_u)"""
+    ctx = z3.main_ctx()
+    es = list(es) or [z3.BoolVal(True)]
+    n = len(es)
+    v = (z3.Ast * max(n - 1, 1))()
+    for i in range(n - 1):
+        v[i] = es[i].as_ast()
+    return z3.Z3_benchmark_to_smtlib_string(ctx.ref(), 'pyvc', '', 'unknown', '', n - 1, v, es[-1].as_ast())
 
 
 def to_cvc5(smt2):
     t = smt2
     t = t.replace('seq.prefixof', 'seq.prefix').replace('seq.suffixof', 'seq.suffix')
     t = re.sub(r'\(set-info :status [a-z]+\)', '', t)
+    t = re.sub(r'\(\(_ ([^ ()]+) 0\)', r'(\1', t)     # z3's print form of recursive-function applications
     return '(set-logic ALL)\n' + t
 
 
@@ -66,10 +99,16 @@ def _solve(job):
                 if names:
                     with open(fn, 'a') as f2:
                         f2.write('(get-value (%s))\n' % ' '.join(names))
-                p = subprocess.run([CVC5, '--strings-exp', '--produce-models',
-                                    '--tlimit=%d' % int(timeout_s * 1000), fn],
-                                   capture_output=True, text=True, timeout=timeout_s + 5)
-                ans = p.stdout.strip().splitlines()[0] if p.stdout.strip() else ''
+                ans = ''
+                for extra in ([], ['--full-saturate-quant']):
+                    p = subprocess.run([CVC5, '--strings-exp', '--produce-models'] + extra +
+                                       ['--tlimit=%d' % int(timeout_s * 1000), fn],
+                                       capture_output=True, text=True, timeout=timeout_s + 5)
+                    ans = p.stdout.strip().splitlines()[0] if p.stdout.strip() else ''
+                    if ans in ('sat', 'unsat'):
+                        if extra:
+                            out['backend_opts'] = ' '.join(extra)
+                        break
                 if ans == 'sat' and names:
                     try:
                         from .model import parse
